@@ -516,6 +516,14 @@ class StmtMixin:
 
     def delete_item(self, st, loc, key, node):
         pl, cont = self.container_of(st, loc, node, 'del')
+        if pl is not None and isinstance(cont.ty, TSeq) and cont.ty.elem is not TBottom:
+            i = self.int_term(st, key, node, 'index')
+            n = z3.Length(cont.t)
+            self.oblige(st, strops.index_ok(i, n), 'safety', 'seq-index', node=node,
+                        info={'claim': 'list index in range for del (IndexError)'})
+            ii = strops.index_norm(i, n)
+            self.write_place(st, pl, SV(cont.ty, z3.Concat(z3.SubSeq(cont.t, 0, ii), z3.SubSeq(cont.t, ii + 1, n - ii - 1))), node)
+            return
         if pl is None or not isinstance(cont.ty, TMap):
             raise OutsideSubset('del on ' + str(cont.ty))
         has = self.map_has(cont, key)
